@@ -206,8 +206,11 @@ def check_npa(ctx, rule_prefix="R-SDP"):
     for n in walk_no_nested(f.node):
         if isinstance(n, ast.Assign) and isinstance(n.value, ast.Call) and m.resolve_call(f, n.value).key.endswith("_get_nonlocal_game_params") and isinstance(n.targets[0], ast.Tuple):
             tg = [e.id for e in n.targets[0].elts if isinstance(e, ast.Name)]
-            ctx.ob("R-BIND", f, "(a_out, a_in, b_out, b_in) unpacked in the order returned", tg == ret_names,
-                   f"{tg}" if tg == ret_names else f"unpacked as {tg} but returned as {ret_names}", n)
+            # positions where the callee returns a bare name must be unpacked into the same name; positions returned as expressions
+            # (an inlined local) carry no name to compare
+            okb_ = len(tg) == len(ret_names) and all(r is None or r == t_ for r, t_ in zip(ret_names, tg)) and sum(r is not None for r in ret_names) >= 2
+            ctx.ob("R-BIND", f, "(a_out, a_in, b_out, b_in) unpacked in the order returned", okb_,
+                   f"{tg}" if okb_ else f"unpacked as {tg} but returned as {ret_names}", n)
             b = m.bind(n.value, m.resolve_call(f, n.value).func)
             ctx.ob("R-THREAD", f, "referee_dim reaches the parameter extraction", isinstance(b.get("referee_dim"), ast.Name) and b["referee_dim"].id == "referee_dim",
                    "forwarded" if isinstance(b.get("referee_dim"), ast.Name) else "referee_dim not forwarded: answer counts are mis-derived for referee dimension > 1", n)
